@@ -285,6 +285,12 @@ def value_cases(prov, fn, l, _depth=0, _outer=(), _use=None):
             if m > fn.arg_count and m != l and prov.defs(fn).get(m):
                 out.extend(value_cases(prov, fn, m, _depth + 1, _outer + here, (db, di)))
                 continue
+        if kind == "assign" and x["rv"]["k"] == "use" and x["rv"]["op"].get("k") in ("copy", "move") and _depth < 6 and \
+                [(p["k"], p.get("variant") or p.get("name")) for p in x["rv"]["op"]["place"]["p"]] == [("downcast", "Continue"), ("field", "0")]:
+            through = _through_try(prov, fn, x["rv"]["op"]["place"]["l"], (db, di), _depth, _outer + here)
+            if through is not None:
+                out.extend(through)
+                continue
         val = prov.rvalue(fn, x["rv"], (db, di)) if kind == "assign" else prov.call_origin(fn, x, db)
         conds = []
         seen = set()
@@ -295,6 +301,33 @@ def value_cases(prov, fn, l, _depth=0, _outer=(), _use=None):
                 conds.append(c)
         out.append((val, conds, (db, di)))
     return out
+
+
+def _through_try(prov, fn, m, use, depth, outer):
+    """`(m as Continue).0` where every `m = Try::branch(y)` reads a `y` that is built in place as `Ok(v)` / `Some(v)` on several
+    paths (or `Err(..)` / `None`, which do not continue): the cases of v - the shape a spliced helper with early returns leaves
+    behind. None when some definition of y is anything else (the caller then keeps the merged origin)."""
+    out = []
+    live = cfg_of(fn).live_nodes()
+    for kind, cb, ci, t in prov.defs(fn).get(m, []):
+        if cb not in live or not prov._reaches_live(fn, m, (cb, ci), use):
+            continue
+        if kind != "call" or t["callee"]["key"] != "std::ops::Try::branch" or len(t["args"]) != 1:
+            return None
+        a = t["args"][0]
+        if a.get("k") not in ("copy", "move") or a["place"]["p"] or a["place"]["l"] <= fn.arg_count:
+            return None
+        at_call = tuple(dominating_conditions(prov, fn, cb))
+        for val, conds, site in value_cases(prov, fn, a["place"]["l"], depth + 1, outer + at_call, (cb, ci)):
+            if val[0] == "agg" and (val[1].endswith("Result::Ok") or val[1].endswith("Option::Some")) and len(val[2]) == 1:
+                out.append((val[2][0][1], conds, site))
+            elif val[0] == "agg" and (val[1].endswith("Result::Err") or val[1].endswith("Option::None")):
+                continue
+            elif val[0] == "call" and val[1].endswith("FromResidual::from_residual"):
+                continue
+            else:
+                return None
+    return out or None
 
 
 def success_return_sites(prov, fn):
